@@ -243,6 +243,65 @@ func c01Directed(r *hx.Run, w *W, ps *plans, i int, t int64) {
 	w.Clock.Advance(t + 1)
 }
 
+// c01DirectedSlowFetch: the fetch is in flight while the cache clock jumps far ahead; requests arriving
+// after the jump must still wait behind it
+func c01DirectedSlowFetch(r *hx.Run, w *W, ps *plans, i int, jump int64) {
+	uri := fmt.Sprintf("/c01s/%d/%d", r.Seed, i)
+	key := "GET c01.example " + uri
+	gate := make(chan struct{})
+	var once sync.Once
+	release := func() { once.Do(func() { close(gate) }) }
+	defer release()
+	ps.set(uri, &plan{Seq: []ans{{Kind: "cacheable", T: 30}}, Gate: func(*hx.Fetch) <-chan struct{} { return gate }})
+	defer ps.del(uri)
+	rq := hx.Req{Addr: w.Addr, Host: "c01.example", URI: uri}
+	overBefore := len(w.Farm.Overlaps())
+	chans := []chan *hx.Result{}
+	start := func() {
+		ch := make(chan *hx.Result, 1)
+		chans = append(chans, ch)
+		go func() { ch <- w.Cl.Do(rq) }()
+	}
+	start()
+	if !hx.WaitUntil(10*time.Second, func() bool { return w.Farm.InflightKey(key) == 1 }) {
+		r.Inconclusive("C01 slow fetch: fetcher not at origin")
+		return
+	}
+	base := w.Pts.Count("get.registered")
+	start()
+	hx.WaitUntil(10*time.Second, func() bool { return w.Pts.Count("get.registered") > base })
+	for k := 0; k < 3; k++ {
+		w.Clock.Advance(jump)
+		reg := w.Pts.Count("get.registered")
+		start()
+		hx.WaitUntil(5*time.Second, func() bool { return w.Pts.Count("get.registered") > reg || w.Farm.InflightKey(key) >= 2 })
+	}
+	maxIn := w.Farm.MaxInflight(key)
+	release()
+	var res []*hx.Result
+	for _, ch := range chans {
+		res = append(res, <-ch)
+	}
+	r.Eval(1)
+	r.Add("directed_slow_fetch_schedules", 1)
+	r.Distinct(fmt.Sprintf("directed_slow_fetch jump=%d", jump))
+	cs := map[string]interface{}{"uri": uri, "clock_jump_seconds": jump, "schedule": "fetch held at origin; a waiter parked; three times: clock += jump, another request"}
+	if over := w.Farm.Overlaps()[overBefore:]; len(over) > 0 || maxIn > 1 {
+		r.Violate("concurrent_upstream_fetches", map[string]string{"mode": "directed_slow_fetch"}, fmt.Sprintf("a request arriving while the (slow) fetch was in flight went upstream itself: max in flight %d, labels %v", maxIn, labelsOf(res)), briefs(res), cs)
+		return
+	}
+	nf := 0
+	for _, x := range res {
+		if x.Label == "fetching" {
+			nf++
+		}
+	}
+	if nf != 1 {
+		r.Violate("two_fetchers", map[string]string{"mode": "directed_slow_fetch"}, fmt.Sprintf("%d requests labelled fetching: %v", nf, labelsOf(res)), briefs(res), cs)
+	}
+	w.Clock.Advance(40)
+}
+
 // c01DirectedLookup: a request is held between the dispatcher lookup and the entry lookup while the
 // entry expires and another request becomes the fetcher
 func c01DirectedLookup(r *hx.Run, w *W, ps *plans, i int, t int64) {
@@ -403,6 +462,9 @@ func c01(r *hx.Run) {
 	}
 	for i := 0; i < r.Pick(20, 500) && !r.TooMany(); i++ {
 		c01DirectedLookup(r, w, ps, i, []int64{1, 3, 60}[i%3])
+	}
+	for i := 0; i < r.Pick(12, 300) && !r.TooMany(); i++ {
+		c01DirectedSlowFetch(r, w, ps, i, []int64{5, 11, 61, 301, 3601}[i%5])
 	}
 	w.Pts.SetJitter(c01JitterPoints, 200)
 	c01Porcupine(r, w, ps, rnd, r.Pick(60, 1500))
